@@ -49,6 +49,10 @@ THEOREMS = [
     'C01.redefine_forgets_previous_cell', 'C01.obj_redefine_eq_fresh', 'C01.obj_rejected_unchanged',
     'C01.origin_only_keeps_vects', 'C01.vects_only_keeps_origin', 'C01.reset_is_unit_cell', 'C01.volume_pos_of_det_ne_zero',
     'C01.set_dispatch_unit_iff', 'C01.set_dispatch_sound', 'C01.set_dispatch_complete', 'C01.positional_order',
+    # the unit of length (Proofs/C01_Scale.lean, end of Proofs/C01.lean); LAMMPS-compatible orientation
+    'C01.scale_lengths_sq', 'C01.scale_dots', 'C01.scale_gram', 'C01.scale_angle_cos', 'C01.scale_det', 'C01.scale_volume',
+    'C01.scale_isLammpsNorm', 'C01.scale_relToCart', 'C01.scale_recip', 'C01.scale_cartToRel', 'C01.scale_inside',
+    'C01.lammps_getters_refuse_iff', 'C01.normal_unique_of_gram', 'C01.turned_cell_not_normal',
 ]
 PARTIAL = {
     'angles_in_degrees': 'read-back of lengths and angles is proved in squared / cosine form over every ordered field '
